@@ -4,6 +4,8 @@ CONSTANTS
   HashOnString = FALSE
   TildeOrderZero = FALSE
   StaleKey = FALSE
+  NoResplit = FALSE
+  Boundary = TRUE
   Epochs <- E_two
   Revs <- R_two
   UpChars = {48, 49, 126}
